@@ -579,7 +579,7 @@ def main(ctx):
         if hit is not None:
             sig = hit          # repaired by a known finding's patch: no need to minimise again
         else:
-            small = shrink(src, same, budget_s=12 if quick else 40)
+            small = shrink(src, same, budget_s=10 if quick else 15)
             if not small.strip() or not same(small):
                 small = src
             sig = attribute(small) or generic_signature(kind, detail, small)
@@ -672,7 +672,7 @@ def main(ctx):
     # ---------------------------------------------------------------- search + corr2 + corr3
     nsh = max(2, min(14, (os.cpu_count() or 4) - 2))
     total = 20000 if quick else 4000000
-    secs = 4.0 if quick else 110.0        # CPU seconds per shard (the harness measures its own CPU time: load tolerant)
+    secs = 4.0 if quick else 60.0        # CPU seconds per shard (the harness measures its own CPU time: load tolerant)
     sdir = os.path.join(BUILD, "c01_search")
     os.makedirs(sdir, exist_ok=True)
     for fn in os.listdir(sdir):
